@@ -159,6 +159,38 @@ func compressJob(j jobC14, data []byte, shared *lzma.Properties) ([]byte, error)
 	return w.buf.Bytes(), nil
 }
 
+// tweakOwnConfig does what a caller may do with a configuration value of its
+// own: have it verified (which fills in the defaults) and then change the
+// properties it now holds. That is nobody else's business: a configuration
+// that leaves Properties nil must mean the same before and after.
+func tweakOwnConfig(j jobC14) {
+	if !j.Cfg.DefProps {
+		return
+	}
+	tweak := func(p *lzma.Properties) {
+		if p != nil {
+			p.LC, p.LP, p.PB = 0, 0, 0
+		}
+	}
+	switch j.Kind[:len(j.Kind)-1] {
+	case "xz":
+		cfg := j.Cfg.XZ()
+		if cfg.Verify() == nil {
+			tweak(cfg.Properties)
+		}
+	case "lzma":
+		cfg := j.Cfg.W1()
+		if cfg.Verify() == nil {
+			tweak(cfg.Properties)
+		}
+	case "lzma2":
+		cfg := j.Cfg.W2()
+		if cfg.Verify() == nil {
+			tweak(cfg.Properties)
+		}
+	}
+}
+
 func decompressJob(j jobC14, comp []byte) ([]byte, error) {
 	if j.Cut > 0 {
 		comp = comp[:int(int64(len(comp))*int64(j.Cut)/1000)]
@@ -260,6 +292,7 @@ func checkC14(c caseC14, rec *ev.Rec) *ev.Failure {
 			return nil
 		}
 		digest.Write(comp)
+		tweakOwnConfig(j)
 		again, err := compressJob(j, datas[j.Data], shared)
 		if err != nil || !bytes.Equal(again, comp) {
 			return ev.Fail(fmt.Sprintf("job %d (%s): compressing the same input twice gives different output (%d vs %d bytes)", i, j.Kind, len(comp), len(again)), "result", "nondeterministic_sequential", "kind", j.Kind)
